@@ -224,8 +224,8 @@ theorem compose_std (pre base suf : List String) :
 
 /-! ## constructor -/
 
-theorem init_envPath {params : List String} {envStr : Bool} {cwd : Parts}
-    {kw : List (String × PyVal)} {p : Project} (h : init params envStr cwd kw = .ok p) :
+theorem init_envPath {params : List String} {envStr absAlways : Bool} {cwd : Parts}
+    {kw : List (String × PyVal)} {p : Project} (h : init params envStr absAlways cwd kw = .ok p) :
     p.envPath = initEnv envStr (dictGet kw "environment_path") := by
   unfold init at h
   simp only [bind, Except.bind, pure, Except.pure] at h
@@ -234,5 +234,20 @@ theorem init_envPath {params : List String} {envStr : Bool} {cwd : Parts}
   repeat' split at h
   all_goals cases h
   all_goals rfl
+
+theorem init_path {params : List String} {envStr absAlways : Bool} {cwd : Parts}
+    {kw : List (String × PyVal)} {p : Project} (h : init params envStr absAlways cwd kw = .ok p) :
+    initPath absAlways cwd (dictGet kw "path") = .ok p.path := by
+  unfold init at h
+  simp only [bind, Except.bind, pure, Except.pure] at h
+  split at h
+  · cases h
+  split at h
+  · cases h
+  next q hq =>
+    rw [hq]
+    repeat' split at h
+    all_goals cases h
+    all_goals rfl
 
 end JediModel.SysPath
